@@ -3,23 +3,24 @@
 PROP = {
     "model": "C04_RecordIDs.Model",
     "design_ref": "DESIGN.md 7.4",
-    "level_text": "Coq theorems over all events, generator states and histories with restarts at any position: "
-                  "generated IDs are consecutive, never null/raw/reserved and never equal to an ID already in the "
-                  "workspace's log, also after the generator is rebuilt from the log (recovery dominates every logged ID); "
-                  "regeneration replaces every declared raw ID by one storage ID everywhere in the event and reports exactly "
-                  "that mapping; the three places where the code as written falls short (CUD references to argument raw IDs, "
-                  "explicit IDs of synced argument documents, uint64 wrap-around) are refuted by witnesses and excluded by "
-                  "named hypotheses; the model is tied to istructsmem + the command processor by replaying observed scenarios "
-                  "(responses, PLog read-back, records) inside Coq on every run",
+    "level_text": "Coq theorems over all events, generator states and histories with restarts at any position (no uint64 "
+                  "overflow: IDs + number of rows < 2^64, shown necessary by a witness): generated IDs are strictly increasing, "
+                  "never null/raw/reserved and never equal to an ID already in the workspace's log, also after the generator is "
+                  "rebuilt from the log (recovery dominates every logged ID); regeneration replaces every declared raw ID by one "
+                  "storage ID everywhere in the event (argument, creates, updates) and reports exactly that mapping; a link "
+                  "theorem shows that every bounded model trace passes the oracle `satisfies` evaluated on observed traces; the "
+                  "model variants before the repairs of F12/F41/F42 are kept behind explicit flags with their refutations; the "
+                  "model is tied to istructsmem + the command processor by replaying observed scenarios (responses, PLog "
+                  "read-back, records) inside Coq on every run",
     "level_note": "trusted: Coq kernel/vm_compute, translator, harness; modelled not verified: dynobuffers row encoding, "
                   "PLog/records storage (C02/C03/C05), singleton registry (C10), JSON request decoding; the argument tree is "
                   "modelled flattened in pre-order; only the ID rules of event validation are modelled",
     "properties_file": "theories/Properties/C04.v",
-    "n": {"quick": 400, "thorough": 2500},
+    "n": {"quick": 700, "thorough": 2500},
     "shards": {"quick": 1, "thorough": 8},
     "cases_per_file": 40,
     "rule": "scenario = 0-6 events written at istructs level with one real generator per workspace (new and synced events, "
-            "explicit IDs above/below next, ODoc argument trees, CUD graphs with parent/child and reference fields, "
+            "explicit IDs above/below next and MaxUint64, ODoc argument trees, CUD graphs with parent/child and reference fields, "
             "singletons, updates) then 0-12 commands through the real command processor with restarts (everything above "
             "the storage rebuilt, partition recovered from the PLog) between them, two workspaces, raw IDs from a small "
             "alphabet reused by every event; about a fifth of the events carry one ID-rule mutation (unknown raw "
@@ -29,6 +30,8 @@ PROP = {
     "trusted_base": ["modelled not verified: dynobuffers row encoding, PLog/records storage below IEvents/IRecords, "
                      "singleton registry, encoding/json of requests and responses"],
     "assumptions": ["events are well-formed apart from the ID rules (types, containers, required fields)",
-                    "explicit IDs of synced events do not collide with IDs already stored (client's responsibility)",
+                    "explicit IDs of synced events do not collide with IDs already stored nor with the IDs the generator hands out "
+                    "for the raw IDs of the same event (client's responsibility; Apply refuses such an event with a sequences violation)",
+                    "a singleton is created at most once per workspace",
                     "no storage faults (C01)"],
 }
